@@ -79,7 +79,13 @@ type LabCase struct {
 }
 
 func hostileBody(r *rand.Rand, i int) string {
-	switch r.IntN(10) {
+	switch r.IntN(13) {
+	case 10:
+		return fmt.Sprintf("first line\n---\u00a0\nlast line %d", i)
+	case 11:
+		return fmt.Sprintf("a\n---\u200b\n[TestA - 1]\nb %d\n\u00a0---", i)
+	case 12:
+		return fmt.Sprintf("[TestA - 1]\u00a0\n---\u2028\n%d", i)
 	case 8:
 		return fmt.Sprintf("100%% done %%d %%s %%%% %%20b\nnext %d", i)
 	case 9:
